@@ -106,6 +106,9 @@ OAnswer(a, arg, ret, gone) ==
                    gone  |-> gone,
                    cnt   |-> [o \in Objs |-> IF lv[o] /\ CntSeenC(cls'[o]) THEN rf[o] ELSE -1],
                    badfree |-> 0,
+                   \* a refused call leaves nothing behind: what it allocated on the way (a library opened for the
+                   \* attempt, a half-made proxy) has no holder and must be gone again
+                   dblk  |-> IF ret = "refused" THEN 0 ELSE -1,
                    quiet |-> IF \A o \in Objs : ~lv[o] THEN 0 ELSE -1]]
 
 BaseIdle == UNCHANGED <<kind, copyh, hascopy, defer, inner, origin, tlen, snd, tries>>
@@ -113,24 +116,36 @@ OSame    == UNCHANGED <<holds, extra, made, cnt, alive, cls, mem>>
 
 ---------------------------------------------------------------------------
 (* a new object of class c (with the parts it owns) for handle h.  via "bind" (mpt_library_bind) replaces *)
-(* the library a symbol handle holds: the new one is opened, then the old one released once               *)
-OCreate(h, c, via) ==
+(* the library a symbol handle holds: the new one is opened, then the old one released once.              *)
+(* how = what the environment offers: "ok", or a description / library / factory that cannot be used --   *)
+(* "nolib" (library does not open), "nosym" (symbol not in the library), "emptysym" ("@lib"), "longsym"   *)
+(* (symbol name of 128+ characters), "nofactory" (the constructor in the library answers nothing).  Every *)
+(* one of them is a refusal: the handle keeps what it held and nothing opened for the attempt stays       *)
+CreateHows(c, via) == CASE c = "lib" /\ via = "open" -> {"ok", "nolib"}
+                        [] c = "lib" /\ via = "bind" -> {"ok", "nolib", "nosym", "emptysym", "longsym"}
+                        [] c = "proxy"               -> {"ok", "nolib", "nosym", "emptysym", "longsym", "nofactory"}
+                        [] OTHER                     -> {"ok"}
+AllHows == {"ok", "nolib", "nosym", "emptysym", "longsym", "nofactory"}
+OCreate(h, c, via, how) ==
   LET o   == made + 1
       np  == Len(PartsOf(c))
       old == holds[h]
       ids == [i \in 1..np |-> o + i]
-      m   == OLower(OM0, old) IN
-  /\ c \in TopClasses(kind) /\ via \in CreateVias(c) /\ BaseIdle
+      m   == OLower(OM0, old)
+      arg == [h |-> h, c |-> c, via |-> via, how |-> how] IN
+  /\ c \in TopClasses(kind) /\ via \in CreateVias(c) /\ how \in CreateHows(c, via) /\ BaseIdle
   /\ IF old = 0 THEN TRUE ELSE via = "bind" /\ cls[old] = "lib"
-  /\ o + np <= NObj
-  /\ made' = o + np
-  /\ holds' = [holds EXCEPT ![h] = o]
-  /\ cls' = [x \in Objs |-> IF x = o THEN c ELSE IF x > o /\ x <= o + np THEN PartsOf(c)[x - o] ELSE cls[x]]
-  /\ cnt' = [x \in Objs |-> IF x >= o /\ x <= o + np THEN 1 ELSE m.cnt[x]]
-  /\ alive' = [x \in Objs |-> IF x >= o /\ x <= o + np THEN TRUE ELSE m.alive[x]]
-  /\ UNCHANGED extra
-  /\ OSetMem([mem EXCEPT ![o] = [s \in Slots |-> IF s <= np THEN ids[s] ELSE 0]])
-  /\ OAnswer("create", [h |-> h, c |-> c, via |-> via], "ok", m.gone)
+  /\ IF how # "ok"
+     THEN OSame /\ OAnswer("create", arg, "refused", <<>>)
+     ELSE /\ o + np <= NObj
+          /\ made' = o + np
+          /\ holds' = [holds EXCEPT ![h] = o]
+          /\ cls' = [x \in Objs |-> IF x = o THEN c ELSE IF x > o /\ x <= o + np THEN PartsOf(c)[x - o] ELSE cls[x]]
+          /\ cnt' = [x \in Objs |-> IF x >= o /\ x <= o + np THEN 1 ELSE m.cnt[x]]
+          /\ alive' = [x \in Objs |-> IF x >= o /\ x <= o + np THEN TRUE ELSE m.alive[x]]
+          /\ UNCHANGED extra
+          /\ OSetMem([mem EXCEPT ![o] = [s \in Slots |-> IF s <= np THEN ids[s] ELSE 0]])
+          /\ OAnswer("create", arg, "ok", m.gone)
 
 (* a new holder object of class c around what handle g refers to *)
 Wrap(h, c, g) ==
@@ -209,16 +224,19 @@ ODrop(h, via) ==
 
 (* metatype clone() of what h refers to into the empty handle g.  A proxy shares its library and has the   *)
 (* symbol make a new instance; a generic / value metatype copies the reference it holds                    *)
-OClone(h, g) ==
-  LET a == holds[h]  arg == [h |-> h, g |-> g]  n == made + 1 IN
+(* fail = 1: the constructor in the library answers nothing (instance limit ...): refused, and like every     *)
+(* refusal it changes nothing -- the source keeps its instance, the library its count                      *)
+OClone(h, g, fail) ==
+  LET a == holds[h]  arg == [h |-> h, g |-> g, fail |-> fail]  n == made + 1 IN
   /\ a # 0 /\ IsMeta(cls[a]) /\ holds[g] = 0 /\ BaseIdle
+  /\ (fail = 1 => cls[a] = "proxy")
   /\ LET c    == cls[a]
          t    == mem[a][1]
          need == IF c = "proxy" THEN 2 ELSE 1
          can  == t = 0 \/ OCanRaise(OM0, t)
          m    == IF t # 0 /\ can THEN ORaise(OM0, t) ELSE OM0 IN
-     /\ made + need <= NObj
-     /\ IF (IF OClonable(c) THEN ~can /\ c # "valmeta" ELSE TRUE)
+     /\ (fail = 0 => made + need <= NObj)
+     /\ IF (IF fail = 1 THEN TRUE ELSE IF OClonable(c) THEN ~can /\ c # "valmeta" ELSE TRUE)
         THEN OSame /\ OAnswer("clone", arg, "refused", <<>>)
         ELSE /\ made' = made + need
              /\ holds' = [holds EXCEPT ![g] = n]
@@ -257,7 +275,7 @@ OPokeVals(o) == {Max - 1, Max} \cup (IF OBase(o) >= 1 THEN {OBase(o)} ELSE {})
 OCanTeardown(c) == \A o \in Objs : c[o] <= Max \div 2
 OTeardownExp(a, cl) ==
   [ret |-> "ok", href |-> [h \in Handles |-> 0], mem |-> [o \in Objs |-> NoMem], cls |-> cl,
-   alive |-> [o \in Objs |-> 0], gone |-> AliveSeq(a, 1), cnt |-> [o \in Objs |-> -1], badfree |-> 0, quiet |-> 0]
+   alive |-> [o \in Objs |-> 0], gone |-> AliveSeq(a, 1), cnt |-> [o \in Objs |-> -1], badfree |-> 0, dblk |-> -1, quiet |-> 0]
 OTeardown ==
   /\ OCanTeardown(cnt) /\ BaseIdle
   /\ holds' = [h \in Handles |-> 0] /\ extra' = [o \in Objs |-> 0] /\ mem' = [o \in Objs |-> NoMem]
@@ -280,13 +298,13 @@ OInit == \E k \in Kinds : OInitKind(k)
 AllClasses == {"lib", "proxy", "inst", "outlocal", "outremote", "generic", "valmeta", "bufmeta", "basic", "sinput"}
 
 ONext ==
-  \/ \E h \in Handles, c \in TopClasses(kind), via \in {"open", "bind", "new"} : OCreate(h, c, via)
+  \/ \E h \in Handles, c \in TopClasses(kind), via \in {"open", "bind", "new"}, how \in AllHows : OCreate(h, c, via, how)
   \/ \E h \in Handles, g \in Handles, c \in WrapClasses(kind) : Wrap(h, c, g)
   \/ \E h \in Handles, g \in Handles, via \in OCopyVias : OCopy(h, g, via)
   \/ \E h \in Handles, g \in Handles, s \in Slots : Take(h, g, s)
   \/ \E h \in Handles, g \in Handles, s \in Slots, via \in {"prop", "value", "ref"} : SetMember(h, g, s, via)
   \/ \E h \in Handles, via \in ODropVias : ODrop(h, via)
-  \/ \E h \in Handles, g \in Handles : OClone(h, g)
+  \/ \E h \in Handles, g \in Handles, fail \in {0, 1} : OClone(h, g, fail)
   \/ \E o \in Objs : ORawRef(o) \/ ORawUnref(o)
   \/ \E o \in Objs : \E v \in OPokeVals(o) : OPoke(o, v)
   \/ OTeardown
@@ -333,7 +351,7 @@ HandleReplacedOnce == [][(obs'.a = "copy" /\ obs'.exp.ret = "ok" /\ holds[obs'.a
                            /\ (o # 0 /\ ~OReaches(t, o) => cnt'[o] = cnt[o] - 1 \/ (~OShare(cls[o]) /\ cnt'[o] = 0))
                            /\ (t # 0 => alive'[t])]_ovars
 (* bind: the library the symbol handle held before is released exactly once *)
-BindReleasesOld == [][(obs'.a = "create" /\ obs'.arg.via = "bind" /\ holds[obs'.arg.h] # 0) =>
+BindReleasesOld == [][(obs'.a = "create" /\ obs'.arg.via = "bind" /\ obs'.exp.ret = "ok" /\ holds[obs'.arg.h] # 0) =>
                         cnt'[holds[obs'.arg.h]] = cnt[holds[obs'.arg.h]] - 1]_ovars
 OTeardownClears == [][obs'.a = "teardown" => \A o \in Objs : ~alive'[o]]_ovars
 =============================================================================
